@@ -14,16 +14,27 @@ REPO_SOURCES = ["muggle/c/sync/spinlock.c", "muggle/c/sync/synclock.c", "muggle/
 HEADER_LINES = 2
 SHRINK = False          # a case is (scenario, schedule); schedules are not line-shrinkable
 CASE_TIMEOUT = 5.0
-RULE = ("scenarios (lock kind x 2..4 threads x 1..3 iterations; call_once 2..4 racers; retain/release scripts from 1..3) "
+RULE = ("scenarios (lock kind x 2..4 threads x 1..3 iterations; call_once 2..4 racers calling 1..3 times each; "
+        "retain/release scripts of 1..8 operations per thread starting from 1..3 and from the boundary values 0x7ffe..0x8001, "
+        "0xfffe..0x10001, 2^31-3..2^31-1 (never more retains than fit the C type)) "
         "x seeded random schedules (context-switch density 20/50/80 %, weak-CAS spurious failure 0/30 %) run on the real "
-        "code under the deterministic scheduler; every trace replayed on the extracted model; non-trivial = the trace "
-        "contains a contended acquisition / a losing call_once racer / a failed or refused counter operation; distinct = "
-        "distinct trace text")
+        "code under the deterministic scheduler; every trace replayed on the extracted model; plus unhooked smoke scripts "
+        "of every muggle_atomic_* macro of atomic.h as shipped (single thread: random operation scripts on int/i32/i64/byte "
+        "cells incl. width boundaries; two real threads: interleaving-independent totals) compared with the model's value "
+        "semantics; non-trivial = the trace contains a contended acquisition / a losing call_once racer / a failed or "
+        "refused counter operation / a failing compare-exchange or a wrapping add in a smoke script; distinct = distinct trace text")
 TRUSTED_BASE = [
     "modelled, not verified: sequentially consistent interleaving of atomic operations plus release/acquire views for the protected plain cell (stand-in for C11; DRF-SC is assumed, not proved); futex = atomic compare-and-block/wake and pthread mutex = exclusive ownership with acquire/release, as interposed by harness/vsched; real weak-memory reorderings cannot be exhibited on x86 under a serialised run",
     "memory orders of the 8 sites are re-extracted from the executed code into coq/gen/Params_C04.v on every run and the theorems' side conditions (mo_sufficient) are discharged against them",
+    "the scheduled runs never execute the macro BODIES of muggle/c/base/atomic.h (harness/vsched/vs_hooks.h re-defines every muggle_atomic_* macro); they are tied separately: lib/atomic_tie.py reads from gcc's GIMPLE (-O1, the drivers' include path and config header) of a probe translation unit, for atomic.h alone and with vs_hooks.h force-included, the __atomic builtin of every macro, where each macro parameter lands, how the result is returned, what the hook logs, the values of muggle_memory_order_* / __ATOMIC_* and the sizes of the muggle_atomic_* types (obligation atomic_macros_are_the_hooked_builtins), and harness/drivers/c04_atomics.c (compiled WITHOUT the hooks) runs every macro's value semantics on real threads against Lib/AtomicTie.v aop_sem.  Trusted there: gcc's GIMPLE dump format and the ~150-line reader in lib/atomic_tie.py; only the GCC/Linux branch of atomic.h is seen (the Windows/MSVC half is in no run and no model)",
+    "leaf translator lib/leaftrans.py behind the slicer lib/props/c04_slice.py (clang 14 JSON AST -> Gallina over Z): the loop body of muggle_ref_cnt_retain / _release as a function of the value read from *ref (obligation ref_loop_body_matches_model); the model's counter has the range of the C type (obligation ref_counter_type_matches_model); `v + 1` at INT_MAX is undefined behaviour in the unchanged code (no refusal there): the counter theorems carry the hypothesis initial value + number of retains <= INT_MAX, the ghost r_ovf records a violation of it",
 ]
-ASSUMPTIONS = ["threads use the lock/once/refcount API as documented (unlock only by the holder)"]
+ASSUMPTIONS = ["threads use the lock/once/refcount API as documented (unlock only by the holder)",
+               "reference counter: initial value + total number of retains <= INT_MAX (beyond that muggle_ref_cnt_retain computes INT_MAX + 1, undefined behaviour in C)"]
+EVIDENCE_NOTES = [
+    "atomic.h tie: order-only edits of a macro body (e.g. store ignoring its memorder) cannot be exhibited by a run on x86; they break atomic_macros_are_the_hooked_builtins / c04_memory_orders_sufficient and are reported with a MODEL history under the effective orders (model_search); value-level edits (returned old/new value, compare-exchange result or *expected write-back, test_and_set polarity) are reported with a concrete smoke script",
+    "refcnt_exactly_one_zero is stated for finished runs of scripts with at least (initial + retains) releases; for other scripts only 'at most one' (refcnt_single_zero) holds, by design of the property",
+]
 
 SITES = [  # (params field, scenario, op, cell)
     ("mo_spin_tas", "spin", "tas", "lock"), ("mo_spin_clear", "spin", "clear", "lock"),
@@ -34,8 +45,12 @@ SITES = [  # (params field, scenario, op, cell)
 MO = {"rlx": "Rlx", "con": "Con", "acq": "Acq", "rel": "Rel", "acqrel": "AcqRel", "sc": "SeqCst", "none": "MoNone"}
 
 
+ATOMICS_C = "harness/drivers/c04_atomics.c"      # compiled WITHOUT vs_hooks.h (build_vsched_driver: extra_c)
+_TIE = {}                                        # result of lib/atomic_tie.probe of this run (for model_search)
+
+
 def build_impl(ctx):
-    return V.build_vsched_driver(ID, C_DRIVER, REPO_SOURCES)
+    return V.build_vsched_driver(ID, C_DRIVER, REPO_SOURCES, extra_c=[ATOMICS_C])
 
 
 def _discovery_cases():
@@ -45,8 +60,20 @@ def _discovery_cases():
             V.Case("disc-ref", ["refcnt 2 rd dd", "sched rand 4 30 0 0"])]
 
 
+SITE_MACRO = {  # params field -> macro the site goes through
+    "mo_spin_tas": "muggle_atomic_test_and_set", "mo_spin_clear": "muggle_atomic_clear",
+    "mo_sync_cas": "muggle_atomic_cmp_exch_weak", "mo_sync_store": "muggle_atomic_store",
+    "mo_once_cas": "muggle_atomic_cmp_exch_strong", "mo_once_store": "muggle_atomic_store",
+    "mo_once_load": "muggle_atomic_load", "mo_ref_cas": "muggle_atomic_cmp_exch_strong",
+}
+
+
 def gen_params(ctx):
-    """Memory orders actually passed by the code at each site (observed by the hooks)."""
+    """(1) memory orders actually passed by the code at each site (observed by the hooks);
+    (2) atomic.h and vs_hooks.h as gcc sees them (lib/atomic_tie.py);
+    (3) the loop bodies of retain / release re-translated from the C text (lib/props/c04_slice.py)."""
+    import atomic_tie as AT
+    from props import c04_slice as SL
     exe = build_impl(ctx)
     res = V.run_batch(exe, _discovery_cases(), per_case_timeout=5.0)
     seen = {}
@@ -67,10 +94,33 @@ def gen_params(ctx):
             fields.append("%s := MoNone" % field)
         else:
             fields.append("%s := %s" % (field, MO.get(next(iter(mos)), "MoNone")))
-    txt = ("(* generated by lib/props/c04.py from the memory orders observed at each atomic site of\n"
-           "   spinlock.c / synclock.c / call_once.c / ref_cnt.c on this run; do not edit *)\n"
-           "From MV Require Import C04.Model.\n" + "\n".join(notes) + ("\n" if notes else "") +
-           "Definition code_params : params :=\n  {| " + ";\n     ".join(fields) + " |}.\n")
+    txt = ("(* generated by lib/props/c04.py on this run; do not edit.\n"
+           "   code_params: memory orders observed at each atomic site of spinlock.c / synclock.c / call_once.c / ref_cnt.c;\n"
+           "   header_atomic_table .. atomic_types: lib/atomic_tie.py; gen_ref_*: lib/props/c04_slice.py + lib/leaftrans.py *)\n"
+           "From Coq Require Import String.\n"
+           "From MV Require Import Lib.Leaf Lib.AtomicTie C04.Model.\n"
+           "Local Open Scope string_scope.\nLocal Open Scope Z_scope.\n" + "\n".join(notes) + ("\n" if notes else "") +
+           "Definition code_params : params :=\n  {| " + ";\n     ".join(fields) + " |}.\n\n")
+    # (2) a failure of the probe leaves empty tables: the obligation breaks
+    _TIE.clear()
+    try:
+        tie = AT.probe(V.REPO, V.GEN_INC, V.VERIF, os.path.join(V.BUILD, ID, "atomic_tie"),
+                       extra_types=[("muggle_ref_cnt_t", "muggle/c/sync/ref_cnt.h")])
+        _TIE.update(tie)
+        txt += AT.coq_tables(tie)
+        for ln in AT.disagreements(tie):
+            V.log("atomic.h tie: " + ln)
+    except Exception as e:
+        txt += ("(* lib/atomic_tie.py failed: %s *)\n" % str(e).replace("*)", "* )")[:600] +
+                "Definition header_atomic_table : list (string * amacro) := [].\n"
+                "Definition hook_atomic_table : list (string * hmacro) := [].\n"
+                "Definition unhooked_atomic_macros : list string := [\"?\"].\n"
+                "Definition memory_order_consts : list (string * Z * Z) := [].\n"
+                "Definition atomic_types : list (string * Z * bool) := [].\n")
+    # (3)
+    V.gen_config_header()
+    flags = ["-std=gnu11", "-I" + V.REPO, "-I" + V.GEN_INC, "-DNDEBUG"]
+    txt += "\n" + SL.gen_all(V.REPO, flags)
     return txt
 
 
@@ -94,6 +144,114 @@ def corpus_cases(ctx):
     ]
 
 
+INT_MAX = 2 ** 31 - 1
+REF_BOUNDARIES = [0x7ffe, 0x7fff, 0x8000, 0x8001, 0xfffe, 0xffff, 0x10000, INT_MAX - 2, INT_MAX - 1, INT_MAX]
+
+
+def _ref_scripts(rng, n, maxlen, max_retains=None):
+    """n scripts of 1..maxlen operations; at most max_retains retains in total (the counter is a C int)"""
+    scripts = ["".join(rng.choice("rd") for _ in range(rng.range(1, maxlen))) for _ in range(n)]
+    if max_retains is not None:
+        out, left = [], max_retains
+        for sc in scripts:
+            t = ""
+            for ch in sc:
+                if ch == "r":
+                    if left <= 0:
+                        ch = "d"
+                    else:
+                        left -= 1
+                t += ch
+            out.append(t)
+        scripts = out
+    return scripts
+
+
+def _ref_boundary_cases(rng, per_init, prefix):
+    cases = []
+    for init in REF_BOUNDARIES:
+        room = INT_MAX - init
+        fixed = [["rr", "d"], ["r", "r", "dd"], ["rrr", "ddd"]]
+        for j in range(per_init):
+            if j < len(fixed):
+                sc, left = [], room
+                for x in fixed[j]:
+                    t = ""
+                    for ch in x:
+                        if ch == "r" and left <= 0:
+                            ch = "d"
+                        elif ch == "r":
+                            left -= 1
+                        t += ch
+                    sc.append(t)
+            else:
+                sc = _ref_scripts(rng, rng.range(2, 3), 4, max_retains=min(room, 6))
+            cases.append(_mk("%s-%d-%d" % (prefix, init, j), "refcnt %d %s" % (init, " ".join(sc)),
+                             "rand %d %d 0 0" % (rng.below(1 << 30), rng.choice([20, 50, 80]))))
+    return cases
+
+
+AT_BITS = {"int": 32, "i32": 32, "i64": 64, "byte": 8}
+
+
+def _atomics_script(rng, variant, nops):
+    """random operation script for the unhooked smoke run; values are chosen so that compare-exchanges both
+    succeed and fail and additions cross the boundaries of the type"""
+    bits = AT_BITS[variant]
+    hi, lo = 2 ** (bits - 1) - 1, -(2 ** (bits - 1))
+    init = rng.choice([0, 1]) if variant == "byte" else rng.choice([0, 1, 5, -3, hi, lo, hi - 1, 1000])
+    cell = init
+    ops = []
+    for _ in range(nops):
+        if variant == "byte":
+            k = rng.choice(["ts", "ts", "cl", "ld", "st"])
+            if k == "st":
+                v = rng.choice([0, 1])
+                ops.append("st:%d" % v)
+                cell = v
+            else:
+                ops.append(k)
+                cell = 1 if k == "ts" else 0 if k == "cl" else cell
+            continue
+        k = rng.choice(["ld", "st", "xc", "cs", "cs", "cw", "cw", "fa", "fa", "fs"])
+        if k == "ld":
+            ops.append("ld")
+        elif k in ("st", "xc"):
+            v = rng.choice([0, 1, -1, 7, hi, lo, rng.range(-50, 50)])
+            ops.append("%s:%d" % (k, v))
+            cell = v
+        elif k in ("cs", "cw"):
+            e = cell if rng.below(2) else rng.choice([cell + 1, cell - 1, 0, 42])
+            e = max(lo, min(hi, e))
+            d = rng.choice([0, 1, cell + 1 if cell < hi else lo, hi, lo, rng.range(-9, 9)])
+            d = max(lo, min(hi, d))
+            ops.append("%s:%d:%d" % (k, e, d))
+            if e == cell:
+                cell = d
+        else:
+            v = rng.choice([1, 1, 2, -1, hi, rng.range(0, 100)])
+            ops.append("%s:%d" % (k, v))
+            cell = cell + v if k == "fa" else cell - v
+            cell = (cell - lo) % (2 ** bits) + lo
+    return "atomics %s %d %s" % (variant, init, " ".join(ops))
+
+
+def _atomics_cases(rng, nsingle, iters, prefix="atomics"):
+    cases = [
+        # one fixed script per variant touching every macro once (readable replay)
+        V.Case(prefix + "-fixed-int", ["atomics int 5 ld st:9 xc:3 cs:3:4 cs:3:8 cw:4:6 cw:7:1 fa:2 fs:1 ld"]),
+        V.Case(prefix + "-fixed-i32", ["atomics i32 -2 ld xc:3 cs:3:4 cs:3:8 cw:4:6 cw:7:1 fa:2147483647 fs:1 ld"]),
+        V.Case(prefix + "-fixed-i64", ["atomics i64 4294967296 ld xc:9000000000 cs:9000000000:4 cs:3:8 cw:4:6 cw:7:1 fa:9223372036854775807 fs:1 ld"]),
+        V.Case(prefix + "-fixed-byte", ["atomics byte 0 ts ts ld cl ld ts cl cl st:1 ts"]),
+    ]
+    for i in range(nsingle):
+        variant = ["int", "i32", "i64", "byte"][i % 4]
+        cases.append(V.Case("%s-%s-%d" % (prefix, variant, i), [_atomics_script(rng, variant, rng.range(4, 14))]))
+    for variant in ("int", "i32", "i64"):
+        cases.append(V.Case("%s2-%s" % (prefix, variant), ["atomics2 %s %d" % (variant, iters)]))
+    return cases
+
+
 def generate(rng, tier):
     cases = []
     nseed = 25 if tier == "quick" else 400
@@ -109,13 +267,17 @@ def generate(rng, tier):
                                      "rand %d %d %d 0 %d %d" % (rng.below(1 << 30), stick, spur, fs, fw)))
     for n in (2, 3, 4):
         for i in range(nseed * 2):
-            cases.append(_mk("once-%d-%d" % (n, i), "once %d" % n, "rand %d %d 0 0" % (rng.below(1 << 30), rng.choice([20, 50, 80]))))
+            calls = rng.choice([1, 1, 2, 3])       # a racer may call again after READY
+            cases.append(_mk("once-%d-%d" % (n, i), "once %d %d" % (n, calls),
+                             "rand %d %d 0 0" % (rng.below(1 << 30), rng.choice([20, 50, 80]))))
     for i in range(nseed * 12):
         n = rng.range(2, 4)
         init = rng.range(1, 3)
-        scripts = ["".join(rng.choice("rd") for _ in range(rng.range(1, 3))) for _ in range(n)]
+        scripts = _ref_scripts(rng, n, 3 if i % 3 else 8)
         cases.append(_mk("ref-%d" % i, "refcnt %d %s" % (init, " ".join(scripts)),
                          "rand %d %d 0 0" % (rng.below(1 << 30), rng.choice([20, 50, 80]))))
+    cases += _ref_boundary_cases(rng, 4 if tier == "quick" else 12, "refb")
+    cases += _atomics_cases(rng, 60 if tier == "quick" else 1200, 3000 if tier == "quick" else 30000)
     return cases
 
 
@@ -127,12 +289,15 @@ def search(rng, diverging, tier):
         out.append(_mk("search-lock-%d" % i, "lock %s %d %d" % (kind, rng.range(2, 4), rng.range(1, 3)),
                        "rand %d %d %d 0 %d %d" % (rng.below(1 << 30), rng.choice([10, 30, 50, 80]), rng.choice([0, 20, 50]), fs, fw)))
     for i in range(1000):
-        out.append(_mk("search-once-%d" % i, "once %d" % rng.range(2, 4), "rand %d %d 0 0" % (rng.below(1 << 30), rng.choice([10, 50, 80]))))
+        out.append(_mk("search-once-%d" % i, "once %d %d" % (rng.range(2, 4), rng.range(1, 3)),
+                       "rand %d %d 0 0" % (rng.below(1 << 30), rng.choice([10, 50, 80]))))
     for i in range(2000):
         n = rng.range(2, 4)
-        scripts = ["".join(rng.choice("rd") for _ in range(rng.range(1, 3))) for _ in range(n)]
+        scripts = _ref_scripts(rng, n, 8 if i % 2 else 3)
         out.append(_mk("search-ref-%d" % i, "refcnt %d %s" % (rng.range(1, 3), " ".join(scripts)),
                        "rand %d %d 0 0" % (rng.below(1 << 30), rng.choice([10, 50, 80]))))
+    out += _ref_boundary_cases(rng, 10, "search-refb")
+    out += _atomics_cases(rng, 400, 5000, "search-atomics")
     return out
 
 
@@ -143,18 +308,24 @@ def model_search(ctx):
     p = os.path.join(V.COQ, "gen", "Params_C04.v")
     txt = open(p).read()
     vals = []
+    inv = {v: k for k, v in MO.items()}
     for field, _, _, _ in SITES:
         m = re.search(r"%s := (\w+)" % field, txt)
-        vals.append(m.group(1) if m else "MoNone")
+        v = m.group(1) if m else "MoNone"
+        if _TIE:
+            # the order the builtin really receives: the call-site order pushed through the macro body of atomic.h
+            import atomic_tie as AT
+            v = MO.get(AT.effective_order(_TIE, SITE_MACRO[field], inv.get(v, "none")), "MoNone")
+        vals.append(v)
     cases = []
-    for i, scen in enumerate(["lock spin 2 2", "lock sync 2 2", "once 2", "lock spin 3 1", "lock sync 3 1", "once 3"]):
+    for i, scen in enumerate(["lock spin 2 2", "lock sync 2 2", "once 2", "lock spin 3 1", "lock sync 3 1", "once 3", "once 2 2"]):
         cases.append(V.Case("modelsearch-%d" % i, [scen, "params " + " ".join(vals), "explore %d 3000" % (ctx.seed + i)]))
     res = ctx.run_model(cases)
     for c in cases:
         r = res.get(c.name)
         if r and r["lines"] and r["lines"][0].startswith("FOUND"):
             lines = list(c.lines[:2]) + r["lines"]
-            return (V.Case(c.name, lines), "model history (memory orders as extracted from the code: %s): %s" % (
+            return (V.Case(c.name, lines), "model history (memory orders that reach the builtins, call-site orders pushed through atomic.h: %s): %s" % (
                 " ".join(vals), r["lines"][0][6:]))
     return None
 
@@ -182,6 +353,61 @@ def monitor(case, lines):
         return _mon_once(scen, lines)
     if scen[0] == "refcnt":
         return _mon_ref(scen, lines)
+    if scen[0] in ("atomics", "atomics2"):
+        return _mon_atomics(scen, lines)
+    return None
+
+
+def _wrap(bits, x):
+    lo = -(2 ** (bits - 1))
+    return (x - lo) % (2 ** bits) + lo
+
+
+def _mon_atomics(scen, lines):
+    """value semantics of the muggle_atomic_* macros, written down independently of the Coq model"""
+    if not lines or lines[-1] != "F atomics":
+        return "smoke run did not finish: %r" % (lines[-1:] or None)
+    if scen[0] == "atomics2":
+        n = int(scen[2])
+        want = "A2 fadd=%d fsub=0 cass=%d casw=%d lock=%d xchg=0" % (2 * n, 2 * n, 2 * n, 2 * n)
+        if lines[0] != want:
+            return "two threads, %d iterations each of every muggle_atomic_* read-modify-write: got %r, expected %r" % (n, lines[0], want)
+        return None
+    variant, cell = scen[1], int(scen[2])
+    bits = AT_BITS.get(variant)
+    if bits is None:
+        return None
+    cell = _wrap(bits, cell)
+    outs = [ln for ln in lines if ln.startswith("A ")]
+    if len(outs) != len(scen) - 3:
+        return "%d result lines for %d operations" % (len(outs), len(scen) - 3)
+    for tok, ln in zip(scen[3:], outs):
+        w = tok.split(":")
+        a = [int(x) for x in w[1:]]
+        res, exp = 0, 0
+        before = cell
+        if w[0] == "ld":
+            res = cell
+        elif w[0] == "st":
+            cell = _wrap(bits, a[0])
+        elif w[0] == "xc":
+            res, cell = cell, _wrap(bits, a[0])
+        elif w[0] in ("cs", "cw"):
+            if cell == a[0]:
+                res, exp, cell = 1, a[0], _wrap(bits, a[1])
+            else:
+                res, exp = 0, cell
+        elif w[0] == "fa":
+            res, cell = cell, _wrap(bits, cell + a[0])
+        elif w[0] == "fs":
+            res, cell = cell, _wrap(bits, cell - a[0])
+        elif w[0] == "ts":
+            res, cell = (1 if cell == 0 else 0), 1
+        elif w[0] == "cl":
+            cell = 0
+        want = "A %s res=%d exp=%d cell=%d" % (tok, res, exp, cell)
+        if ln != want:
+            return "atomic.h (%s cell holding %d): operation %s gave %r, the operation's semantics is %r" % (variant, before, tok, ln, want)
     return None
 
 
@@ -215,7 +441,7 @@ def _mon_lock(scen, lines):
 
 
 def _mon_once(scen, lines):
-    n = int(scen[1])
+    n = int(scen[1]) * (int(scen[2]) if len(scen) > 2 else 1)     # racers x calls per racer
     begun = ended = 0
     rets = 0
     for ln in lines:
@@ -244,7 +470,12 @@ def _mon_ref(scen, lines):
         return None if lines and lines[0] == "F refinit -1" else "init with %d must fail" % init
     cur = init
     last_des = {}
+    last_obs = {}
     zero_seen = 0
+    scripts = scen[2:]
+    retains = sum(sc.count("r") for sc in scripts)
+    releases = sum(sc.count("d") for sc in scripts)
+    done = 0
     for ln in lines:
         w = ln.split()
         if w[0] == "E" and w[2] == "cass" and w[3] == "ref":
@@ -258,6 +489,7 @@ def _mon_ref(scen, lines):
                     return "counter step %d -> %d" % (obs, des)
                 cur = des
                 last_des[w[1]] = des
+                last_obs[w[1]] = obs
                 if des == 0:
                     zero_seen += 1
         elif w[0] == "R" and w[2] in ("retain", "release"):
@@ -268,9 +500,16 @@ def _mon_ref(scen, lines):
             else:
                 if last_des.get(w[1]) != v:
                     return "%s returned %d but its successful CAS wrote %s" % (w[2], v, last_des.get(w[1]))
+                if v != last_obs[w[1]] + (1 if w[2] == "retain" else -1):
+                    return "%s moved the counter %d -> %d" % (w[2], last_obs[w[1]], v)
                 last_des.pop(w[1], None)
+            done += 1
     if zero_seen > 1:
         return "%d releases observed zero" % zero_seen
+    if done == retains + releases and releases >= init + retains and (zero_seen != 1 or cur != 0):
+        # exactly one: with that many releases the counter must reach zero, once
+        return "%d releases for initial value %d and %d retains, all operations returned, but %d release(s) observed zero (counter %d)" % (
+            releases, init, retains, zero_seen, cur)
     f = [ln for ln in lines if ln.startswith("F ref=")]
     if not f or int(f[-1][6:]) != cur:
         return "final counter %s differs from the linearised value %d" % (f[-1] if f else None, cur)
@@ -288,13 +527,19 @@ def nontrivial_key(case, lines):
         return hash(txt)
     if scen == "refcnt" and (" -1" in txt or re.search(r"cass ref \w+ -?\d+ -?\d+ 0", txt)):
         return hash(txt)
+    if scen == "atomics2" or (scen == "atomics" and re.search(r"A c[sw]:\S+ res=0 ", txt)):
+        return hash(case.lines[0] + txt)
     return None
 
 
 def tally(dist, case, lines):
     scen = case.lines[0].split()
-    k = scen[0] + ("-" + scen[1] if scen[0] == "lock" else "")
+    k = scen[0] + ("-" + scen[1] if scen[0] in ("lock", "atomics") else "")
     dist[k] = dist.get(k, 0) + 1
+    if scen[0] == "once" and len(scen) > 2 and int(scen[2]) > 1:
+        dist["once_repeated_calls"] = dist.get("once_repeated_calls", 0) + 1
+    if scen[0] == "refcnt" and int(scen[1]) > 1000:
+        dist["refcnt_boundary_init"] = dist.get("refcnt_boundary_init", 0) + 1
     dist["events"] = dist.get("events", 0) + sum(1 for ln in lines if ln.startswith("E "))
     for ln in lines:
         if ln.startswith("E ") and ln.endswith(" 0 1 2"):
@@ -305,10 +550,13 @@ def tally(dist, case, lines):
 
 MANIFEST = {
     "level_text": ("Coq theorems over executable interleaving models (arbitrary number of threads, every schedule, "
-                   "spurious weak-CAS failures included) of spinlock, synclock, mutex client, call_once and ref_cnt: "
-                   "mutual exclusion, visibility of the previous holder's writes (release/acquire views, memory orders "
-                   "re-extracted from the code each run), call_once exactly-once/no-early-return, counter "
-                   "linearizability with saturation at zero.  Tie: the real code runs under a deterministic scheduler "
+                   "spurious weak-CAS failures included) of spinlock, synclock, mutex/trylock client, call_once (any number of "
+                   "calls per racer) and ref_cnt: mutual exclusion, visibility of the previous holder's writes (release/acquire "
+                   "views, memory orders re-extracted from the code each run and pushed through the macro bodies of atomic.h as "
+                   "gcc sees them), call_once exactly-once/no-early-return, counter linearizability with saturation at zero, "
+                   "exactly one release observing zero when enough releases are made, no signed overflow within the stated range; "
+                   "atomic.h macro bodies and the scheduler hooks tied by a GIMPLE probe (atomic_macros_are_the_hooked_builtins) "
+                   "and an unhooked smoke run; retain/release loop bodies re-translated from the C text.  Tie: the real code runs under a deterministic scheduler "
                    "(hooked atomics, emulated futex/mutex) and every trace is replayed on the extracted model; an "
                    "independent monitor checks overlap / once / counter chain on the traces."),
     "design_ref": "DESIGN.md sections 4.2, 4.3, 6/C04",
